@@ -283,6 +283,28 @@ func suiteC19(r *Run) {
 		case 3:
 			params = append(params, sprintf("Mp%d/synth.proto=example.com/mapped/x", iter))
 		}
+		// the option pair that interacts: an explicit M mapping for the file takes precedence over import_path
+		wantDir, wantPkg := "", ""
+		if iter%7 == 3 {
+			params = nil
+			if legacyStubs {
+				params = append(params, "legacy_stubs")
+			}
+			if legacyNames {
+				params = append(params, "legacy_desc_names")
+			}
+			params = append(params, "import_path=example.com/override", sprintf("M%s=example.com/mapped/x", fd.GetName()))
+			wantDir, wantPkg = "example.com/mapped/x/", "x"
+		} else if iter%7 == 5 {
+			params = append(params[:0:0], "import_path=example.com/override")
+			if legacyStubs {
+				params = append(params, "legacy_stubs")
+			}
+			if legacyNames {
+				params = append(params, "legacy_desc_names")
+			}
+			wantDir, wantPkg = "example.com/override/", "override"
+		}
 		req := &pluginpb.CodeGeneratorRequest{FileToGenerate: []string{fd.GetName()}, ProtoFile: []*descriptorpb.FileDescriptorProto{fd}}
 		if len(params) > 0 {
 			req.Parameter = proto.String(strings.Join(params, ","))
@@ -311,6 +333,20 @@ func suiteC19(r *Run) {
 			continue
 		}
 		src := resp.File[0].GetContent()
+		if wantDir != "" {
+			name := resp.File[0].GetName()
+			pkgClause := ""
+			for _, ln := range strings.Split(src, "\n") {
+				if strings.HasPrefix(ln, "package ") {
+					pkgClause = strings.TrimSpace(strings.TrimPrefix(ln, "package "))
+					break
+				}
+			}
+			if !strings.HasPrefix(name, wantDir) || pkgClause != wantPkg {
+				r.Violate("stubgen/wrong-go-package", "the code the plugin emits is valid Go (it belongs to the Go package the options assign to the file: an M mapping for the file before import_path)",
+					sprintf("options %q: output file %q, package clause %q; want a file under %q in package %q", strings.Join(params, ","), name, pkgClause, wantDir, wantPkg), caseDesc, name)
+			}
+		}
 		binds, regs, perr := extractBindings(src)
 		if perr != nil {
 			r.Violate("stubgen/invalid-go", "the code the plugin emits is valid Go", perr.Error(), caseDesc, trunc(src, 400))
